@@ -4,6 +4,7 @@ from __future__ import annotations
 
 import copy
 import itertools
+import os
 import random
 
 from rv import cases, gen, harness, monitors, refsem, vloop
@@ -265,16 +266,59 @@ def work_c06(prop, tier, seed, widx, nworkers):
             mw = res['stats']['max_width_held']
             acc.counters['max_width_held_max'] = max(acc.counters.get('max_width_held_max', 0), mw)
         built.close()
+    if widx < (2 if tier == 'quick' else 8):
+        _real_width(acc, seed * 100 + widx)
     r = acc.result()
     r['counters'].pop('max_width_held', None)
     return r
+
+
+def _real_width(acc, seed):
+    """Real default pools (rv/realwidth.py, fresh interpreter): W sibling bodies of one depth rendezvous."""
+    import json as _json
+    import subprocess
+    import sys as _sys
+    import tempfile
+    out = tempfile.mktemp(prefix='rvwidth_', suffix='.json')
+    env = dict(os.environ)
+    try:
+        p = subprocess.run([_sys.executable, '-m', 'rv.realwidth', out, str(seed)], env=env, capture_output=True,
+                           timeout=600, cwd=os.path.dirname(os.path.dirname(os.path.abspath(__file__))))
+        rows = _json.load(open(out)) if os.path.exists(out) else None
+    except subprocess.TimeoutExpired:
+        rows = None
+    finally:
+        if os.path.exists(out):
+            os.remove(out)
+    if rows is None:
+        acc.counters['real_width_inconclusive'] = acc.counters.get('real_width_inconclusive', 0) + 1
+        return
+    for r in rows:
+        acc.evaluations += 1
+        acc.counters['real_width_cases'] = acc.counters.get('real_width_cases', 0) + 1
+        acc.counters['real_width_bodies_in_flight_together'] = \
+            acc.counters.get('real_width_bodies_in_flight_together', 0) + (0 if r['broken'] else r['w'])
+        if r['broken'] and r['started_when_given_up'] < r['w']:
+            acc.findings.append({'kind': 'siblings_not_in_flight_together_real_pool', 'prop': ['C06'], 'tags': [],
+                                 'detail': r, 'case': {'what': 'real_width', 'seed': seed, 'row': r, 'runner': 'real_width_case'}})
+        elif r['broken']:
+            acc.counters['real_width_inconclusive'] = acc.counters.get('real_width_inconclusive', 0) + 1
+
+
+def real_width_case(case):
+    """Replay entry: re-run the real-pool width scenario of the stored seed."""
+    acc = Acc('C06')
+    _real_width(acc, case['seed'])
+    return [{'kind': f['kind'], 'prop': f['prop'], 'detail': f['detail']} for f in acc.findings]
 
 
 RULES['C06'] = ('random layered plain-Input DAGs (2-4 layers, width 1-6, every mix of async/thread/inline/process '
                 'modes, mark-less nodes) under a level-hold controller: completions are delivered only at '
                 'quiescent points, one at a time; at every quiescent point the monitor computes D = min depth '
                 '(longest path from the input) of unfinished nodes and requires every unfinished node of depth D to '
-                'have a recorded body start / executor submission. Non-trivial: >= 2 choice points.')
+                'have a recorded body start / executor submission. Non-trivial: >= 2 choice points. Plus (rv/realwidth.py, real '
+                'loop and the pools auto_init() creates): W = 5..8 thread-pool and 2..4 process-pool siblings rendezvous '
+                '(barrier / marker files); a violation only if the rendezvous gave up with fewer than W bodies started.')
 
 
 # ----------------------------------------------------------------------------------------------
